@@ -1,4 +1,6 @@
 pub mod gamespy;
+pub mod minecraft;
+pub mod misc;
 pub mod quake;
 pub mod unreal2;
 pub mod valve;
